@@ -5,6 +5,7 @@ package props
 import (
 	"fmt"
 	"math/big"
+	"sync"
 
 	"github.com/crate-crypto/go-ipa/bandersnatch/fr"
 	"github.com/crate-crypto/go-ipa/banderwagon"
@@ -36,7 +37,7 @@ type history struct {
 }
 
 var poolOps = []string{
-	"small", "small", "small_ratio", "crs", "add", "add", "sub", "double", "neg", "mul", "mul", "msm", "commit", "redecode", "unc_trusted",
+	"small", "small", "small_ratio", "crs", "add", "add", "sub", "double", "neg", "mul", "mul", "msm", "commit", "precomp_custom", "redecode", "unc_trusted",
 	"normalize", "batchnorm", "batchnorm_all", "rescale", "flip", "torsion", "pqq", "dist", "self_sub", "set", "setidentity", "mul_edge", "neg_pair",
 }
 
@@ -63,7 +64,7 @@ func genHistory(t *rapid.T, maxActs int) history {
 		case "small":
 			a.N = rapid.IntRange(0, 40).Draw(t, "k")
 		case "small_ratio":
-			a.N = rapid.IntRange(0, 400).Draw(t, "ratio")
+			a.N = rapid.IntRange(0, 899).Draw(t, "ratio")
 		case "crs":
 			a.N = rapid.IntRange(0, 255).Draw(t, "i")
 		case "add", "sub", "pqq":
@@ -96,6 +97,10 @@ func genHistory(t *rapid.T, maxActs int) history {
 				a.Idx = append(a.Idx, rapid.IntRange(0, 255).Draw(t, "pos"))
 				a.Ss = append(a.Ss, genScalar(t, "cs", widths))
 			}
+		case "precomp_custom":
+			a.N = rapid.IntRange(0, 7).Draw(t, "pattern")
+			s, u := genScalar(t, "s", widths), genScalar(t, "t", widths)
+			a.S, a.T = &s, &u
 		case "batchnorm":
 			m := rapid.IntRange(0, 6).Draw(t, "m")
 			for j := 0; j < m; j++ {
@@ -147,17 +152,26 @@ func glvEdgeScalars() []*big.Int {
 // (below 2^64, 2^128 or 2^192): with x = t*y the curve equation is a quadratic in y^2.
 func smallRatioPoint(n int) (hx.RPt, bool) {
 	base := big.NewInt(int64(1 + n%50))
-	switch (n / 50) % 4 {
+	dir := int64(1)
+	switch (n / 50) % 9 {
 	case 1:
 		base.Add(base, new(big.Int).Lsh(big.NewInt(1), 63))
 	case 2:
 		base.Add(base, new(big.Int).Lsh(big.NewInt(int64(1+n%7)), 127))
 	case 3:
 		base.Add(base, new(big.Int).Lsh(big.NewInt(int64(1+n%5)), 190))
+	case 4, 5, 6: // just BELOW a multiple of the scalar-field modulus: t = m*r - j (the reduction mod r wraps to -j)
+		base.Sub(new(big.Int).Mul(ref.R, big.NewInt(int64((n/50)%9-3))), big.NewInt(int64(1+n%3)))
+		dir = -1
+	case 7: // just above a multiple of r
+		base.Add(new(big.Int).Mul(ref.R, big.NewInt(int64(1+n%3))), big.NewInt(int64(n%2)))
+	case 8: // just below the base-field modulus
+		base.Sub(ref.P, base)
+		dir = -1
 	}
 	P := ref.P
 	for k := int64(0); k < 400; k++ {
-		t := new(big.Int).Add(base, big.NewInt(k))
+		t := new(big.Int).Add(base, big.NewInt(dir*k))
 		t2 := new(big.Int).Mul(t, t)
 		t2.Mod(t2, P)
 		// d t^2 Y^2 - (a t^2 + 1) Y + 1 = 0 with Y = y^2
@@ -188,6 +202,28 @@ func smallRatioPoint(n int) (hx.RPt, bool) {
 		}
 	}
 	return hx.RPt{}, false
+}
+
+var (
+	customPrecompOnce sync.Once
+	customPrecompVal  banderwagon.MSMPrecomp
+	customPrecompErr  error
+)
+
+// customPrecomp builds (once per process) a table MSM over a caller-chosen basis: the CRS with positions (0,1), (2,3),
+// (5,6) holding the SAME point and (7,8) holding opposite points.
+func customPrecomp() (*banderwagon.MSMPrecomp, error) {
+	customPrecompOnce.Do(func() {
+		basis := append([]banderwagon.Element(nil), Cfg().SRS...)
+		basis[1], basis[3], basis[6] = basis[0], basis[2], basis[5]
+		basis[8].Neg(&basis[7])
+		var nerr error
+		if perr := hx.Try(func() { customPrecompVal, nerr = banderwagon.NewPrecompMSM(basis) }); perr != nil {
+			nerr = perr
+		}
+		customPrecompErr = nerr
+	})
+	return &customPrecompVal, customPrecompErr
 }
 
 var twoTorsionBytes = make([]byte, 32) // decodes to (0,-1)
@@ -257,6 +293,27 @@ func runPool(h history, rec *hx.Rec) ([]*banderwagon.Element, error) {
 					err = fmt.Errorf("MultiExp: %v", merr)
 					return
 				}
+				err = add(a.Op, e)
+			case "precomp_custom": // a caller-built table MSM over a basis with repeated / opposite points; the running sum passes through the identity
+				pm, perr := customPrecomp()
+				if perr != nil {
+					err = fmt.Errorf("NewPrecompMSM over a legal custom basis failed: %v", perr)
+					return
+				}
+				vec := make([]fr.Element, 256)
+				sv, tv := a.S.value(), a.T.value()
+				i0 := []int{0, 2, 5, 7, 0, 5, 2, 7}[a.N%8] // (i0, i0+1) hold the same point, or opposite points for i0 = 7
+				second := ref.FrNeg(sv)
+				if i0 == 7 {
+					second = sv
+				}
+				vec[i0], vec[i0+1] = hx.FrFromBig(sv), hx.FrFromBig(second)
+				if a.N%8 >= 4 {
+					vec[i0+2+a.N%3] = hx.FrFromBig(tv)
+				} else {
+					vec[200+a.N] = hx.FrFromBig(tv)
+				}
+				*e = pm.MSM(vec)
 				err = add(a.Op, e)
 			case "commit":
 				vec := make([]fr.Element, 256)
